@@ -445,7 +445,8 @@ int32_t jls_core_fsr_statistics(struct jls_core_s * self, uint16_t signal_id,
 
     ROE(jls_core_f64_buf_alloc((size_t) increment, &self->f64_stats_buf));
     ROE(jls_core_f64_buf_alloc((size_t) signal_def->samples_per_data, &self->f64_sample_buf));
-    int64_t buf_offset = 0;
+    int64_t buf_offset = 0;  // samples consumed for the current entry
+    int64_t buf_count = 0;   // finite samples kept for the current entry
     uint8_t entry_size_bits = jls_datatype_parse_size(signal_def->data_type);
     if (entry_size_bits > 32) {
         JLS_LOGE("entry_size > 64 (float64 stats) not yet supported");
@@ -486,23 +487,41 @@ int32_t jls_core_fsr_statistics(struct jls_core_s * self, uint16_t signal_id,
             src_end = &self->f64_sample_buf->start[s->header.entry_count];
         }
         v = *src++;
-        v_mean += v;
-        if (v < v_min) {
-            v_min = v;
+        ++buf_offset;
+        if (isfinite(v)) {  // the samples of a gap are NaN: they are absent
+            v_mean += v;
+            if (v < v_min) {
+                v_min = v;
+            }
+            if (v > v_max) {
+                v_max = v;
+            }
+            self->f64_stats_buf->start[buf_count++] = v;
         }
-        if (v > v_max) {
-            v_max = v;
-        }
-        self->f64_stats_buf->start[buf_offset++] = v;
 
         if (buf_offset >= increment) {
-            v_mean *= mean_scale;
-            v_var = 0.0;
-            for (int64_t i = 0; i < increment; ++i) {
-                double v_diff = self->f64_stats_buf->start[i] - v_mean;
-                v_var += v_diff * v_diff;
+            if (0 == buf_count) {
+                v_mean = NAN;
+                v_min = NAN;
+                v_max = NAN;
+                v_var = NAN;
+            } else {
+                if (buf_count == increment) {
+                    v_mean *= mean_scale;
+                } else {
+                    v_mean /= (double) buf_count;
+                }
+                v_var = 0.0;
+                for (int64_t i = 0; i < buf_count; ++i) {
+                    double v_diff = self->f64_stats_buf->start[i] - v_mean;
+                    v_var += v_diff * v_diff;
+                }
+                if (buf_count == increment) {
+                    v_var *= var_scale;
+                } else if (buf_count > 1) {
+                    v_var /= (double) (buf_count - 1);
+                }
             }
-            v_var *= var_scale;
 
             data[JLS_SUMMARY_FSR_MEAN] = v_mean;
             data[JLS_SUMMARY_FSR_MIN] = v_min;
@@ -511,6 +530,7 @@ int32_t jls_core_fsr_statistics(struct jls_core_s * self, uint16_t signal_id,
             data += JLS_SUMMARY_FSR_COUNT;
 
             buf_offset = 0;
+            buf_count = 0;
             v_mean = 0.0;
             v_min = DBL_MAX;
             v_max = -DBL_MAX;
